@@ -271,6 +271,9 @@ def case_main():
     """python -m vf.expkit <in.json> <out.json> : runs one configuration in its own process (multi-process configurations)"""
     a = json.load(open(sys.argv[1]))
     out = {"status": "started"}
+    # should the watchdog of the parent fire, the stacks of all threads of this process are in stderr.txt by then (what the run was waiting for)
+    import faulthandler
+    faulthandler.dump_traceback_later(float(a.get("dump_after_s") or 200), exit=False, file=sys.stderr)
     try:
         arrival, logs = [], []
         for pre in a.get("pre") or []:          # earlier runs in the same interpreter (state kept between runs must not matter)
@@ -290,10 +293,12 @@ def case_main():
     except Exception: pass
     sys.stdout.flush(); os._exit(0)
 
+WATCHDOG_LOG = []      # every firing of the watchdog in this process: configuration, deadline, the stacks the case process dumped
+
 def run_subprocess(spec, cfg, workdir, result_file=None, side=None, faults=None, only_triple=None, timeout=240, pre=None):
     ip, op = os.path.join(workdir, "in.json"), os.path.join(workdir, "out.json")
     if os.path.exists(op): os.remove(op)
-    with open(ip, "w") as f: json.dump({"spec": spec, "cfg": list(cfg), "result_file": result_file, "side": side, "faults": faults, "only_triple": only_triple, "pre": pre}, f)
+    with open(ip, "w") as f: json.dump({"spec": spec, "cfg": list(cfg), "result_file": result_file, "side": side, "faults": faults, "only_triple": only_triple, "pre": pre, "dump_after_s": max(5, timeout * .8)}, f)
     errp = os.path.join(workdir, "stderr.txt")
     # the deadline is a watchdog, not a verdict: stretch it when the machine is oversubscribed
     try: timeout = timeout * max(1.0, 2.0 * os.getloadavg()[0] / (os.cpu_count() or 1))
@@ -305,7 +310,10 @@ def run_subprocess(spec, cfg, workdir, result_file=None, side=None, faults=None,
             try: os.killpg(proc.pid, 9)
             except Exception: pass
             proc.wait()
-            return {"status": "timeout"}
+            try: ef.flush(); stacks = open(errp).read()[-6000:]
+            except Exception: stacks = ""
+            WATCHDOG_LOG.append({"cfg": list(cfg), "timeout_s": round(timeout), "stacks": stacks})
+            return {"status": "timeout", "stacks": stacks}
         finally:
             try: os.killpg(proc.pid, 9)
             except Exception: pass
